@@ -334,6 +334,7 @@ class Facts:
             raise Broken("stx met constructs outside its vocabulary: " + ", ".join(data["unsupported"][:10]))
         self.orient_loop_conditions()
         self.drop_assertions()
+        self.single_row_blocks()
 
     def drop_assertions(self):
         """`assert(c);` (analysed with NDEBUG undefined) is `c ? void(0) : __assert_fail(...)`: a statement with no effect on
@@ -357,15 +358,91 @@ class Facts:
                     if isinstance(st, dict) and st.get("k") == "expr" and is_assert(st.get("e")):
                         n[key] = {"k": "null", "line": st.get("line")}
 
+    def single_row_blocks(self):
+        """`m.block<1, C>(e, 0)` on an object with C columns, `m.block(e, 0, 1, C)` and `m.middleRows(e, 1)` /
+        `m.middleRows<1>(e)` are `m.row(e)` (and the same for columns): one spelling for every reader"""
+        def strip(e):
+            while isinstance(e, dict) and e.get("k") in ("cast", "paren", "conv", "copy", "implicit") and e.get("e") is not None:
+                e = e["e"]
+            return e
+
+        def lit(e, v=None):
+            e = strip(e)
+            if isinstance(e, dict) and e.get("k") in ("mem", "static", "declref", "var") and e.get("v") is not None:
+                val = str(e["v"])
+            elif isinstance(e, dict) and e.get("k") == "lit" and e.get("lt") == "int":
+                val = str(e.get("v"))
+            else:
+                return False
+            return v is None or val == str(v)
+        nodes = []
+        for f in self.functions:
+            nodes.append(f.get("body"))
+            for ini in f.get("inits", []) or []:
+                nodes.append(ini.get("init"))
+        for nd in nodes:
+            for n in walk(nd):
+                if n.get("k") != "call" or not isinstance(n.get("callee"), dict) or n["callee"].get("ns") != "Eigen" or n["callee"].get("repo"):
+                    continue
+                c = n["callee"]
+                ot = (n.get("obj") or {}).get("t") or {}
+                if ot.get("c") != "eigen":
+                    continue
+                args = [a for a in n.get("args", []) if not (isinstance(a, dict) and a.get("k") == "defaultarg")]
+                ta = c.get("targs") or []
+                rows, cols = ot.get("rows"), ot.get("cols")
+                kind = None
+                if c.get("name") == "block":
+                    if len(ta) == 2 and len(args) == 2:
+                        if ta[0] == 1 and cols is not None and cols >= 1 and ta[1] == cols and lit(args[1], 0):
+                            kind = ("row", args[0])
+                        elif ta[1] == 1 and rows is not None and rows >= 1 and ta[0] == rows and lit(args[0], 0) and not (ta[0] == 1 and cols == 1):
+                            kind = ("col", args[1])
+                    elif not ta and len(args) == 4:
+                        if lit(args[2], 1) and lit(args[1], 0) and cols is not None and cols >= 1 and lit(args[3], cols):
+                            kind = ("row", args[0])
+                        elif lit(args[3], 1) and lit(args[0], 0) and rows is not None and rows >= 1 and lit(args[2], rows):
+                            kind = ("col", args[1])
+                elif c.get("name") in ("middleRows", "middleCols"):
+                    if (ta == [1] and len(args) == 1) or (not ta and len(args) == 2 and lit(args[1], 1)):
+                        kind = ("row" if c["name"] == "middleRows" else "col", args[0])
+                if kind is None:
+                    continue
+                old = c.get("name")
+                c["name"] = kind[0]
+                if isinstance(c.get("q"), str) and c["q"].endswith("::" + old):
+                    c["q"] = c["q"][:-len(old)] + kind[0]
+                c["pm"] = ["val"]
+                c.pop("targs", None)
+                n["args"] = [kind[1]]
+                t = n.get("t")
+                if isinstance(t, dict) and t.get("c") == "eigen":
+                    if kind[0] == "row":
+                        t["rows"] = 1
+                        if cols is not None:
+                            t["cols"] = cols
+                    else:
+                        t["cols"] = 1
+                        if rows is not None:
+                            t["rows"] = rows
+
     def orient_loop_conditions(self):
         """`for (i = a; N > i; ...)` is `for (i = a; i < N; ...)`: the loop variable is put on the left of its bound test, so
         that every reader of loop headers sees one spelling"""
         flip = {">": "<", ">=": "<=", "<": ">", "<=": ">="}
 
-        def var_id(e):
+        def strip(e):
             while isinstance(e, dict) and e.get("k") in ("cast", "paren", "conv", "copy", "implicit") and e.get("e") is not None:
                 e = e["e"]
+            return e
+
+        def var_id(e):
+            e = strip(e)
             return e.get("id") if isinstance(e, dict) and e.get("k") == "var" else None
+
+        def is_one(e):
+            e = strip(e)
+            return isinstance(e, dict) and e.get("k") == "lit" and e.get("lt") == "int" and str(e.get("v")) == "1"
         nodes = []
         for f in self.functions:
             nodes.append(f.get("body"))
@@ -378,6 +455,28 @@ class Facts:
                     if c.get("k") == "bin" and c.get("op") in flip and var_id(c.get("r")) == n["init"].get("id") and var_id(c.get("l")) != n["init"].get("id"):
                         c["l"], c["r"] = c["r"], c["l"]
                         c["op"] = flip[c["op"]]
+                    # signed `i <= E - 1` is `i < E`
+                    if c.get("k") == "bin" and c.get("op") == "<=" and var_id(c.get("l")) == n["init"].get("id") and (c.get("lt") or {}).get("n") in ("int", "long", "long long"):
+                        r = strip(c.get("r"))
+                        if isinstance(r, dict) and r.get("k") == "bin" and r.get("op") == "-" and is_one(r.get("r")) and (r.get("lt") or {}).get("n") in ("int", "long", "long long"):
+                            c["op"] = "<"
+                            c["r"] = strip(r["l"])
+                # `i += 1`, `i = i + 1`, `i -= 1`, `i = i - 1` as the step of a loop are `++i`, `--i`
+                if n.get("k") == "for" and isinstance(n.get("inc"), dict) and n["inc"].get("k") == "assign":
+                    inc = n["inc"]
+                    v = var_id(inc.get("l"))
+                    op = None
+                    if v is not None and inc.get("op") in ("+=", "-=") and is_one(inc.get("r")):
+                        op = "++" if inc["op"] == "+=" else "--"
+                    elif v is not None and inc.get("op") == "=":
+                        r = strip(inc.get("r"))
+                        if isinstance(r, dict) and r.get("k") == "bin" and r.get("op") in ("+", "-"):
+                            if var_id(r.get("l")) == v and is_one(r.get("r")):
+                                op = "++" if r["op"] == "+" else "--"
+                            elif r["op"] == "+" and var_id(r.get("r")) == v and is_one(r.get("l")):
+                                op = "++"
+                    if op is not None and (inc.get("t") or (inc["l"].get("t") or {})).get("c") == "int":
+                        n["inc"] = {"k": "un", "op": op, "postfix": False, "line": inc.get("line"), "e": strip(inc["l"]), "t": inc["l"].get("t") or inc.get("t")}
 
     def classes(self, short=None):
         out = []
